@@ -18,6 +18,7 @@ G_MENU = [ABSENT, {}, {"y": 2}, {"type": "ep_g2"}, {"type": "CLS:G2", "y": {"n":
 C_MENU = [ABSENT, {"type": "CLS:C"}, {"type": "vkplugins.comps:C", "w": 1}, {"type": "ep_c", "w": {"v": 1}}]
 EP_ALIAS_MENU = [ABSENT, ("ep_c", None), ("ep_c", {"w": 2}), ("ep_k/m", {"tag": "m", "pdef": False}), ("ep_k/m2", {"tag": "m2", "pdef": False})]
 KN_MENU = [ABSENT, {"tag": "n2"}, {"type": "ep_k"}]
+GC_MENU = [ABSENT, ("ep_c", None), ("ep_c", {"w": 4}), ("ep_k/q", {"tag": "q", "pdef": False})]
 
 
 def resolve_cls(t: Any) -> type:
@@ -87,6 +88,9 @@ def expected_tree(root_cls_name: str, config: dict) -> tuple[list, dict]:
         resources[(f"R_{fam}_p", f"np_{fam0}{tag}")] = f"{cls.__name__}:{tag}:prepare-named"
         resources[(f"R_{fam}_s", default_name)] = f"{cls.__name__}:{tag}:start-default"
         resources[(f"R_{fam}_s", f"ns_{fam0}{tag}")] = f"{cls.__name__}:{tag}:start-named"
+        # default-named factories: remapped in start() only, exactly like resources
+        resources[(f"R_{fam0}{tag}_pf", "default")] = f"{cls.__name__}:{tag}:prepare-factory"
+        resources[(f"R_{fam0}{tag}_sf", default_name)] = f"{cls.__name__}:{tag}:start-factory"
         merged = ref_merge(hard(cls, cfg), ext)
         for alias, cc in merged.items():
             cc = dict(cc or {})
@@ -104,14 +108,16 @@ def expected_tree(root_cls_name: str, config: dict) -> tuple[list, dict]:
 def configs(tier: str) -> list:
     out = []
     for rootk in (False, True):
-        for a, g, c, ep, kn in itertools.product(A_MENU, G_MENU, C_MENU, EP_ALIAS_MENU, KN_MENU):
+        for a, g, c, ep, kn, gc_ in itertools.product(A_MENU, G_MENU, C_MENU, EP_ALIAS_MENU, KN_MENU, GC_MENU):
             if kn is not ABSENT and not rootk:
                 continue
+            if gc_ is not ABSENT and gc_[0] == "ep_c" and (c is not ABSENT or (ep is not ABSENT and ep[0] == "ep_c")):
+                continue  # two components of class C would publish conflicting resources
             if c is not ABSENT and ep is not ABSENT and ep[0] == "ep_c":
                 continue  # two components of class C would publish conflicting resources
             if tier == "quick":
                 # pairwise-ish reduction: vary at most three menus away from their first entries
-                nd = sum(1 for m, v in ((A_MENU, a), (G_MENU, g), (C_MENU, c), (EP_ALIAS_MENU, ep), (KN_MENU, kn)) if v is not m[0])
+                nd = sum(1 for m, v in ((A_MENU, a), (G_MENU, g), (C_MENU, c), (EP_ALIAS_MENU, ep), (KN_MENU, kn), (GC_MENU, gc_)) if v is not m[0])
                 if nd > 2:
                     continue
             comps: dict = {}
@@ -121,6 +127,10 @@ def configs(tier: str) -> list:
                 if comps.get("a") is None:
                     comps["a"] = {}  # (None for a hard-coded child would erase its type: a user error, not generated)
                 comps["a"].setdefault("components", {})["g"] = copy.deepcopy(g)
+            if gc_ is not ABSENT:
+                if comps.get("a") is None:
+                    comps["a"] = {}
+                comps["a"].setdefault("components", {})[gc_[0]] = copy.deepcopy(gc_[1])
             if c is not ABSENT:
                 comps["c"] = copy.deepcopy(c)
             if ep is not ABSENT:
@@ -217,6 +227,14 @@ class C14:
             await start_component(getattr(vc, root), cfg, timeout=None)
             resources = {}
             for tn, T in list(vc.RES_TYPES.items()):
+                if tn.endswith("f"):
+                    # factories: which names resolve (a child context is used so that nothing is generated in ctx itself)
+                    async with Context() as probe:
+                        for name in ("default", "n", "n2", "m", "m2", "q"):
+                            v = probe.get_resource_nowait(T, name, optional=True)
+                            if v is not None:
+                                resources[("R_" + tn, name)] = v.label
+                    continue
                 for name, v in ctx.get_resources(T).items():
                     resources[("R_" + tn, name)] = v.label
         ctors = [(c[1], c[2]) for c in vc.REC if c[0] == "ctor"]
